@@ -235,14 +235,14 @@ Qed.
 (* ---------------- the string fields are the event's strings ---------------- *)
 Theorem string_fields_identity e :
   render_field FUpAddr e = Ok (e_upaddr e) /\ render_field FUpService e = Ok (e_upsvc e) /\
-  (exists h p, hostport (e_upaddr e) = Ok (h, p) /\
+  (exists h p, hostport_spec (e_upaddr e) h p /\
                render_field FUpHost e = Ok h /\ render_field FUpPort e = Ok p) /\
   (forall r, e_req e = Some r ->
      render_field FRemoteAddr e = Ok (rq_remote r) /\
      render_field FRequest e = Ok (rq_method r ++ [32] ++ rq_uri r ++ [32] ++ rq_proto r) /\
      render_field FRequestHost e = Ok (rq_host r) /\ render_field FRequestMethod e = Ok (rq_method r) /\
      render_field FRequestURI e = Ok (rq_uri r) /\ render_field FRequestProto e = Ok (rq_proto r) /\
-     exists h p, hostport (rq_remote r) = Ok (h, p) /\
+     exists h p, hostport_spec (rq_remote r) h p /\
                  render_field FRemoteHost e = Ok h /\ render_field FRemotePort e = Ok p) /\
   (e_req e = None ->
      Forall (fun f => render_field f e = Ok [])
@@ -259,10 +259,10 @@ Theorem string_fields_identity e :
 Proof.
   unfold render_field, render_field_with, with_req, with_url.
   split; [reflexivity|]. split; [reflexivity|]. split.
-  { destruct (hostport_total (e_upaddr e)) as (h & p & Hp & _). exists h, p. rewrite Hp. now repeat split. }
+  { destruct (hostport_total (e_upaddr e)) as (h & p & Hp & Sp). exists h, p. rewrite Hp. now repeat split. }
   split.
   { intros r Hr. rewrite Hr. repeat (split; [reflexivity|]).
-    destruct (hostport_total (rq_remote r)) as (h & p & Hp & _). exists h, p. rewrite Hp. now repeat split. }
+    destruct (hostport_total (rq_remote r)) as (h & p & Hp & Sp). exists h, p. rewrite Hp. now repeat split. }
   split. { intros Hr. rewrite Hr. repeat constructor. }
   split. { intros u Hu. rewrite Hu. now repeat split. }
   split. { intros u Hu. rewrite Hu. now repeat split. }
